@@ -237,6 +237,21 @@ def run_datetimes(ctx: ShardCtx, res: ShardResult, dt_mod, tz_mod, tags) -> None
                 mech = 'datetime-parse-back-microsecond-truncated'
             res.violation(mech,
                           f'from_isodatetime({text!r}) = {back!r} != original {value!r}', replay)
+        # the same instant written with two other offsets, straight afterwards: the text of a value must not
+        # depend on what was rendered before it (equal instants compare and hash equal whatever their offset)
+        if i % 4 == 0 and 3 < y < 9990:
+            for off2 in (rng.choice(offsets), 0):
+                other = value.astimezone(datetime.timezone(datetime.timedelta(minutes=off2)))
+                text2 = fn(other)
+                res.count('dt.same_instant_other_offset')
+                m2 = XS_DATETIME.match(text2)
+                zone = m2.group(8) if m2 else None
+                t_off2 = 0 if zone in (None, 'Z') else (int(zone[1:3]) * 60 + int(zone[4:6])) * (-1 if zone[0] == '-' else 1)
+                if not m2 or t_off2 != off2 or int(m2.group(4)) != other.hour or int(m2.group(5)) != other.minute:
+                    res.violation('datetime-text-depends-on-earlier-rendering',
+                                  f'{fn.__name__}({other!r}) = {text2!r} right after the same instant was rendered as {text!r}',
+                                  {'op': 'datetime-pair', 'first': value.isoformat(), 'second': other.isoformat()})
+                    break
         if len(res.samples) < 6:
             res.samples.append({'op': 'datetime', 'text': text, 'offset_min': off, 'us': us})
 
